@@ -909,7 +909,7 @@ def request(draw, allow_fault=True):
 @st.composite
 def stream(draw, layer="inproc"):
     eapi = str(draw(st.sampled_from([0, 4, 6, 7, 8, 8])))
-    n = draw(st.integers(2, 6 if layer != "bash" else 5))
+    n = draw(st.integers(2, 5 if layer != "bash" else 4))
     reqs = [r for _ in range(n) for r in draw(request(allow_fault=(layer == "inproc")))]
     if eapi in ("0", "4"):  # eapply exists from EAPI 6 on
         reqs = [r for r in reqs if r["helper"] != "eapply"]
@@ -970,11 +970,11 @@ def plan(tier, seed):
     if tier == "quick":
         # every external-install / patch request costs a fork+exec: keep the quick tier small
         for i in range(6):
-            tasks.append({"task": "streams", "layer": "inproc", "examples": 45, "salt": i})
+            tasks.append({"task": "streams", "layer": "inproc", "examples": 35, "salt": i})
         for i in range(4):
-            tasks.append({"task": "streams", "layer": "phase", "examples": 25, "salt": 10 + i})
+            tasks.append({"task": "streams", "layer": "phase", "examples": 20, "salt": 10 + i})
         for i in range(6):
-            tasks.append({"task": "streams", "layer": "bash", "examples": 8, "salt": 20 + i})
+            tasks.append({"task": "streams", "layer": "bash", "examples": 6, "salt": 20 + i})
     else:
         for i in range(8):
             tasks.append({"task": "streams", "layer": "inproc", "examples": 220, "salt": i})
